@@ -21,15 +21,15 @@ type Term = string
 //	        is checked against lines[0:p] only (passive-form soundness: a
 //	        later assumption never helps an earlier obligation).
 type Builder struct {
-	top      []string
-	lines    []string
-	sorts    map[string]bool // declared struct sorts
-	declared map[string]bool // declared top-level symbols
-	strLits  map[string]string
-	strOrder []string
-	typeIDs  map[string]int
-	typeList []types.Type
-	fresh    int
+	top          []string
+	lines        []string
+	sorts        map[string]bool // declared struct sorts
+	declared     map[string]bool // declared top-level symbols
+	strLits      map[string]string
+	strOrder     []string
+	typeIDs      map[string]int
+	typeList     []types.Type
+	fresh        int
 	needStrOrder bool
 	heapElem     map[string]types.Type
 }
